@@ -209,6 +209,24 @@ def powm1(ctx, x, y):
     # Small y: x^y - 1 ~ log(x)*y + O(log(x)^2 * y^2)
     if magy + mag(lnx) < -ctx.prec:
         return lnx*y + (lnx*y)**2/2
+    # An integer power of a binary number is a binary number: up to a
+    # moderate size it is computed exactly, so that its difference from 1
+    # is found however many bits of x it takes to see it
+    if ctx.isint(y):
+        n = abs(int(y))
+        parts = [v for v in (ctx._re(x)._mpf_, ctx._im(x)._mpf_) if v[1]]
+        span = max(v[2]+v[3] for v in parts) - min(v[2] for v in parts)
+        if n*(span+2) < 10**6:
+            orig = ctx.prec
+            try:
+                ctx.prec = max(orig, n*(span+2)) + 10
+                p = x**n
+                w = p - one
+                if y < 0:
+                    w = -w/p
+            finally:
+                ctx.prec = orig
+            return w
     # TODO: accurately eval the smaller of the real/imag part
     return ctx.sum_accurately(lambda: iter([x**y, -1]), 1)
 
